@@ -224,7 +224,7 @@ Section MidSound.
       0 <= consumed <= srcSize /\ (lim <> FillOutput -> consumed = srcSize) /\
       spec_decode (seg vrd lo s0) out = Some (seg vrd s0 (s0 + consumed)) /\
       (lim <> FillOutput -> strict_valid (seg vrd lo s0) out = Some (seg vrd s0 (s0 + consumed))) /\
-      ret = Z.of_nat (length out) /\ tab_lt h4 iend /\ tab_lt h8 iend
+      ret = Z.of_nat (length out) /\ tab_lt h4 iend /\ tab_lt h8 iend /\ bytes_ok out = true
     | _ => True
     end.
 
@@ -303,7 +303,7 @@ Section MidSound.
       assert (Hout : rev_append (m_rout s) (encode_last last) = encode_block ss last).
       { rewrite rev_append_rev, Hr. reflexivity. }
       replace (s0 + (m_anchor s + lr - s0)) with (m_anchor s + lr) by lia.
-      split; [|split; [|split; [|split; assumption]]].
+      split; [|split; [|split; [|split; [assumption | split; [assumption|]]]]].
       - rewrite Hout. apply factor_block_decodes; try assumption; try lia.
         subst last. rewrite He. reflexivity.
       - intros Hn. specialize (Hfull Hn). rewrite Hout.
@@ -313,7 +313,8 @@ Section MidSound.
           destruct Hend as [E1 E2]. unfold byte in *. rewrite Hlen. subst lastRun. lia. }
         rewrite Eo. apply (factor_decodes vrd lo s0 (m_anchor s + lr) ss last); try assumption; try lia.
         subst last. rewrite He. reflexivity.
-      - rewrite rev_append_rev, app_length, rev_length, Nat2Z.inj_add, Hop. rewrite <- Henc. reflexivity. }
+      - rewrite rev_append_rev, app_length, rev_length, Nat2Z.inj_add, Hop. rewrite <- Henc. reflexivity.
+      - rewrite Hout. apply encode_block_bytes; [eapply seqs_valid_wf; eauto | subst last; apply seg_bytes_ok; exact Hb]. }
     destruct (limited lim && (m_op s + (1 + (lastRun + 255 - RUN_MASK) / 255 + lastRun) >? oend)) eqn:E.
     - destruct lim eqn:El; try exact I.
       destruct (oend - m_op s <? 1) eqn:E1; [exact I|].
